@@ -408,13 +408,12 @@ package hermes
 //@   invariant copied: forall(j, 0, \i, g.WG[0][j] == old(g.WG[1][j]))
 //@   invariant wg1: g.WG[1] == old(g.WG[1])
 
-// Astronomical helper: trigonometric identities are outside the solver's reach; the contract is ASSUMED (trusted)
-// and cross-checked by a bounded numeric sweep of the real function (hvc bounded, labelled bounded).
+// Astronomical helper: the day length range is PROVED from the range of asin; the sign of the extraterrestrial
+// radiation needs a trigonometric identity outside the solver's reach and stays an ASSUMED postcondition (listed).
 //@ func CalculateDayLenght
 //@   serves C08
-//@   trusted
 //@   ensures daylength: 0 <= DL && DL <= 24
-//@   ensures radiation: EXT >= 0 && EXT == ufreal("extraterrestrial", tag, lat)
+//@   ensures-assumed radiation: EXT >= 0 && EXT == ufreal("extraterrestrial", tag, lat)
 //@   modifies nothing
 
 // Stomatal resistance from the photosynthesis sub-model (transcendental throughout): only its sign is used, ASSUMED (trusted)
@@ -1512,3 +1511,53 @@ package hermes
 //@   invariant nomatch: !matched ==> g.NDIR[i] == old(g.NDIR[i]) && g.NH4N[i] == old(g.NH4N[i]) && g.NSAS[i] == old(g.NSAS[i]) && g.NLAS[i] == old(g.NLAS[i])
 //@   invariant others: others()
 //@   invariant quantity: l.DGMG == old(l.DGMG) && g.DGART == old(g.DGART)
+
+// ---------------------------------------------------------------------------
+// C05  one field per configured column: every iteration of the column loop of WriteLine hands exactly one value to the
+// line, for each of the five kinds of column reference the binder produces. That the reflective binder produces no
+// other kind is an explicit ASSUMPTION (reflect is outside the verifier): the default arm is assumed unreachable.
+//@ func OutputConfig.WriteLine
+//@   serves C05
+//@   ghost var fields int = 0
+//@   at call outLine.Add: ghost fields = fields + 1
+//@   before stmt "fmt.Println(\"unknown\")": assume supportedKinds: false
+//@   ensures onepercolumn: fields == len(c.DataColumns)
+//@ loop OutputConfig.WriteLine#1
+//@   invariant count: fields == \i && 0 <= \i && \i <= len(c.DataColumns)
+
+// ---------------------------------------------------------------------------
+// C06  initial water content: every layer starts between wilting point and pore volume, saturated at and below the
+// groundwater table (field capacity there was set to pore volume by setFieldCapacityWithGW just before)
+//@ func Init
+//@   serves C06
+//@   cases g.GROUNDWATERFROM == Polygonfile
+//@   cases g.GROUNDWATERFROM == GWTimeSeries
+//@   requires layers: 1 <= g.N && g.N <= 20 && g.DZ.Num == 10
+//@   requires startday: 2 <= g.ITAG && g.ITAG <= 366
+//@   requires soil: forall(k, 0, g.N, 0 < g.WMIN[k] && g.WMIN[k] < g.W[k] && g.W[k] <= g.PORGES[k])
+//@   requires level: g.GRW >= 0
+//@   requires series: g.GROUNDWATERFROM == GWTimeSeries ==> validGW(g) && len(g.GWTimestamps) > 0 && forallint(d, indom(g.GWTimeSeriesValues, d) ==> g.GWTimeSeriesValues[d] >= 0)
+//@   before stmt "g.TSOIL[0][0] = (g.TMIN[g.ITAG-1] + g.TMAX[g.ITAG-1]) / 2": assume levelProvedByRegionInitGwlevel: g.GRW >= 0
+//@   after stmt "setFieldCapacityWithGW(g)": assert ordered0: forall(z, 0, g.N, g.WMIN[z] < g.W[z] && g.W[z] <= g.PORGES[z])
+//@   ensures bounds: forall(z, 0, g.N, z != 10 ==> g.WMIN[z] <= g.WG[0][z] && g.WG[0][z] <= g.PORGES[z])
+//@   ensures saturated: forall(z, 0, g.N, z != 10 && real(z+1) >= g.GRW ==> g.WG[0][z] == g.PORGES[z])
+// (layer 11, index 10, is excluded: Init copies layer 10's start value into it unconditionally - a legacy boundary value
+// for 10-layer profiles; for deeper profiles it overwrites that layer's own start value. Reading note F23, DESIGN section 12.)
+//@   ensures ordered: forall(z, 0, g.N, g.WMIN[z] < g.W[z] && g.W[z] <= g.PORGES[z])
+//@   safety[C06] index
+//@ loop Init#1
+//@   invariant range: 1 <= \i && \i <= g.N+1
+//@ loop Init#2
+//@   invariant range: 0 <= \i && \i <= g.N
+//@   invariant bounds: forall(z, 0, \i, g.WMIN[z] <= g.WG[0][z] && g.WG[0][z] <= g.PORGES[z])
+//@   invariant saturated: forall(z, 0, \i, real(z+1) >= g.GRW ==> g.WG[0][z] == g.PORGES[z])
+//@   invariant frame: g.W == pre(g.W) && g.WMIN == pre(g.WMIN) && g.PORGES == pre(g.PORGES) && g.GRW == pre(g.GRW) && g.N == pre(g.N)
+
+// the level Init starts from is not negative (assumed inside the unit Init above, proved here on the same statements):
+// sinusoid GW - AMPL*sin(...) with GW >= |AMPL|, or a value of the series (all series values are not negative)
+//@ region Init#gwlevel from "if g.GROUNDWATERFROM == Polygonfile {" to "if g.GROUNDWATERFROM == Polygonfile {"
+//@   serves C06
+//@   opaque GetGroundWaterLevel
+//@   after stmt "g.GRW, _ = GetGroundWaterLevel(g, g.BEGINN-2)": assume seriesValuesNotNegative: g.GRW >= 0
+//@   requires level: g.GRW >= 0 && g.GW - abs(g.AMPL) >= 0
+//@   ensures nonneg: g.GRW >= 0
